@@ -537,7 +537,7 @@ def lkcd_pfns(rng, pgsz):
     beyond MAX_PFN_GAP (15), runs crossing a level-3 table (4096 frames), far-away frames."""
     s = set()
     want = rng.randint(0, 14 if pgsz <= 8192 else 6)
-    bases = [0, 1, 10, 4090, 4095, 4096, 8190, 1 << 22, (1 << 22) - 3, 0x12345]
+    bases = [0, 1, 10, 4090, 4095, 4096, 8190, 1 << 22, (1 << 22) - 3, 0x12345, (1 << 32) - 60]
     guard = 0
     while len(s) < want and guard < 100:
         guard += 1
@@ -545,7 +545,7 @@ def lkcd_pfns(rng, pgsz):
         step = rng.choice([1, 1, 2, 7, 15, 16, 17])
         for i in range(rng.choice([1, 2, 3, 5])):
             if len(s) < want:
-                s.add(base + i * step)
+                s.add(min(base + i * step, (1 << 32) - 1))     # the index holds 32-bit numbers
     return sorted(s)
 
 
@@ -612,6 +612,9 @@ def lkcd_requests(rng, info):
         k = rng.choice([1, 2, 9, pgsz // 2])
         reqs.append("RM:%x:%x" % ((p + 1) * pgsz - k, 2 * k))
         reqs.append("RM:%x:%x" % (p * pgsz + rng.randrange(pgsz), rng.randint(0, 64)))
+    # page frames 2^32 apart share the low 32 bits of their number (fix 90)
+    for p in pfns[:2]:
+        reqs.insert(rng.randrange(len(reqs) + 1), "RM:%x:%x" % (((1 << 32) + p) * pgsz, pgsz))
     # read everything again once the index is complete
     again = list(pfns)
     rng.shuffle(again)
